@@ -63,17 +63,32 @@ func H_C03_EcdsaScalarRange() {
 		})
 		zzverif.Stub("Signature.recompute: arbitrary verdict and x coordinate (the group computation is C08's subject)")
 	} else {
-		// native realisation of a scalar out of range: a genuine signature whose S is replaced by S + n
-		// (33 bytes) — the only way to make the real curve computation agree with the model's stub
-		var key, nonce, m Number
-		key.SetBytes([]byte{0x11, 0x22, 0x33, 0x44, 0x55, 0x66, 0x77})
-		nonce.SetBytes([]byte{0x0b, 0xad, 0xc0, 0xde, 0x42})
-		m.SetBytes(msg)
-		var sg Signature
-		if sg.Sign(&key, &m, &nonce, nil) != 1 {
+		// native realisation of a scalar out of range: a genuine signature with the small s = 5, built algebraically
+		// (d = (s*k - m) / r mod n for a fixed nonce k, as the property's "triples constructed algebraically"), whose S
+		// is then replaced by S + n: the only way to make the real curve computation agree with the model's stub
+		N := &TheCurve.Order.Int
+		k := new(big.Int).SetBytes([]byte{0x0b, 0xad, 0xc0, 0xde, 0x42})
+		var kp [33]byte
+		BaseMultiply(k.Bytes(), kp[:])
+		var R XY
+		R.ParsePubkey(kp[:])
+		R.X.Normalize()
+		var rx [32]byte
+		R.X.GetB32(rx[:])
+		r := new(big.Int).SetBytes(rx[:])
+		r.Mod(r, N)
+		m := new(big.Int).SetBytes(msg)
+		s0 := big.NewInt(5)
+		d := new(big.Int).Mul(s0, k)
+		d.Sub(d, m)
+		d.Mul(d, new(big.Int).ModInverse(r, N))
+		d.Mod(d, N)
+		if d.Sign() == 0 || r.Sign() == 0 {
 			return
 		}
-		BaseMultiply(key.Bytes(), pub[:33])
+		var dk [32]byte
+		d.FillBytes(dk[:])
+		BaseMultiply(dk[:], pub[:33])
 		var q XY
 		q.ParsePubkey(pub[:33])
 		q.X.Normalize()
@@ -81,10 +96,12 @@ func H_C03_EcdsaScalarRange() {
 		pub[0] = 4
 		q.X.GetB32(pub[1:33])
 		q.Y.GetB32(pub[33:65])
-		s2 := new(big.Int).Add(&sg.S.Int, &TheCurve.Order.Int)
-		rb, sb = sg.R.Bytes(), s2.Bytes()
+		rb, sb = r.Bytes(), new(big.Int).Add(s0, N).Bytes()
 		if rb[0] >= 0x80 {
 			rb = append([]byte{0}, rb...)
+		}
+		if sb[0] >= 0x80 {
+			sb = append([]byte{0}, sb...)
 		}
 		sig = h_der(rb, sb)
 	}
